@@ -56,12 +56,16 @@ Theorem C16_kwargs : forall apd C,
     kw_safe apd C = true -> stub_kw apd C = admits_additional apd C.
 Proof. exact kwargs_agree. Qed.
 
-(* shallow_clone_with_overrides / from_other_class / from_trusted_data carry the same field
-   keywords (same names, same order), the same ** parameter, and every keyword has a default *)
+(* shallow_clone_with_overrides carries the field keywords of __init__ (same names, same order);
+   from_other_class / from_trusted_data carry them except a keyword named like one of their own parameters
+   (cls, source_object, ignore_props: at run time such a keyword is bound to that parameter, it is not a field
+   keyword of the method); the same ** parameter, and every keyword has a default *)
 Theorem C16_methods_same_keywords : forall ar ast C,
   map fst (m_kwparams (stub_shallow_clone ar ast C)) = map fst (m_kwparams (stub_init ar ast C)) /\
-  map fst (m_kwparams (stub_from_other_class ar ast C)) = map fst (m_kwparams (stub_init ar ast C)) /\
-  map fst (m_kwparams (stub_from_trusted_data ar ast C)) = map fst (m_kwparams (stub_init ar ast C)) /\
+  map fst (m_kwparams (stub_from_other_class ar ast C))
+    = classmethod_names (map fst (m_kwparams (stub_init ar ast C))) /\
+  map fst (m_kwparams (stub_from_trusted_data ar ast C))
+    = classmethod_names (map fst (m_kwparams (stub_init ar ast C))) /\
   m_kw (stub_shallow_clone ar ast C) = m_kw (stub_init ar ast C) /\
   m_kw (stub_from_other_class ar ast C) = m_kw (stub_init ar ast C) /\
   m_kw (stub_from_trusted_data ar ast C) = m_kw (stub_init ar ast C) /\
@@ -69,6 +73,13 @@ Theorem C16_methods_same_keywords : forall ar ast C,
   forallb (fun p : sparam => snd p) (m_kwparams (stub_from_other_class ar ast C)) = true /\
   forallb (fun p : sparam => snd p) (m_kwparams (stub_from_trusted_data ar ast C)) = true.
 Proof. exact methods_same_keywords. Qed.
+(* ... hence, for a class none of whose fields is named cls / source_object / ignore_props, exactly the keywords
+   of __init__ *)
+Theorem C16_methods_same_keywords_full : forall ar ast C,
+  no_classmethod_own C = true ->
+  map fst (m_kwparams (stub_from_other_class ar ast C)) = map fst (m_kwparams (stub_init ar ast C)) /\
+  map fst (m_kwparams (stub_from_trusted_data ar ast C)) = map fst (m_kwparams (stub_init ar ast C)).
+Proof. exact methods_same_keywords_full. Qed.
 
 (* no mandatory parameter follows an optional one (the def is syntactically valid) *)
 Theorem C16_order_wf : forall ar ast C, order_wf false (m_kwparams (stub_init ar ast C)) = true.
@@ -79,11 +90,12 @@ Theorem C16_methods_order_wf : forall ar ast C,
     order_wf true (m_kwparams (stub_from_trusted_data ar ast C)) = true.
 Proof. exact methods_order_wf. Qed.
 
-(* unless a field is named like a fixed parameter (self, cls, source_object, ignore_props), no
-   rendered def repeats an argument name *)
+(* no rendered classmethod repeats an argument name, whatever the fields are called (a field named cls,
+   source_object or ignore_props used to be repeated after the fixed parameters: the .pyi did not compile);
+   __init__ and shallow_clone_with_overrides do not either unless a field is named self *)
 Theorem C16_no_duplicate_arguments : forall apd C,
-    no_reserved C = true ->
-    NoDup (arg_names (stub_init apd apd C)) /\ NoDup (arg_names (stub_shallow_clone apd apd C)) /\
+    (no_self C = true ->
+     NoDup (arg_names (stub_init apd apd C)) /\ NoDup (arg_names (stub_shallow_clone apd apd C))) /\
     NoDup (arg_names (stub_from_other_class apd apd C)) /\ NoDup (arg_names (stub_from_trusted_data apd apd C)).
 Proof. exact no_duplicate_arguments. Qed.
 
@@ -101,6 +113,7 @@ Print Assumptions C16_defaults_rendered.
 Print Assumptions C16_kwargs_refuted.
 Print Assumptions C16_kwargs.
 Print Assumptions C16_methods_same_keywords.
+Print Assumptions C16_methods_same_keywords_full.
 Print Assumptions C16_order_wf.
 Print Assumptions C16_methods_order_wf.
 Print Assumptions C16_no_duplicate_arguments.
@@ -121,7 +134,7 @@ Definition ex_hier : hier :=
 
 Example C16_nonvacuous :
   def_ok true ex_hier = true /\ tok_safe true ex_hier = true /\ kw_safe true ex_hier = true /\
-  no_reserved ex_hier = true /\
+  no_reserved ex_hier = true /\ no_self ex_hier = true /\ no_classmethod_own ex_hier = true /\
   (forall f, In f (all_fields ex_hier) -> f_tok f <> TOptNone) /\
   m_kwparams (stub_init true true ex_hier)
     = [(s2p "name", false); (s2p "val", false); (s2p "req", false); (s2p "i", true); (s2p "opt", true)] /\
@@ -135,6 +148,20 @@ Proof.
   intros f Hf. vm_compute in Hf.
   repeat (destruct Hf as [<- | Hf]; [discriminate|]). contradiction.
 Qed.
+
+(* a class with fields named cls and ignore_props (class S(Structure): cls: int; a: str; ignore_props: str = 'd'):
+   __init__ and shallow_clone_with_overrides carry the three keywords, the two classmethods only `a`; no
+   classmethod repeats an argument name *)
+Definition ex_own_hier : hier :=
+  [ {| b_fields := [fld "ignore_props" KField true TPlain; fld "cls" KField false TPlain; fld "a" KField false TPlain];
+       b_required := None; b_optional := []; b_additional := None |} ].
+Example C16_own_parameter_names :
+  def_ok true ex_own_hier = true /\ no_classmethod_own ex_own_hier = false /\ no_self ex_own_hier = true /\
+  map fst (m_kwparams (stub_init true true ex_own_hier)) = [s2p "cls"; s2p "a"; s2p "ignore_props"] /\
+  map fst (m_kwparams (stub_shallow_clone true true ex_own_hier)) = [s2p "cls"; s2p "a"; s2p "ignore_props"] /\
+  map fst (m_kwparams (stub_from_other_class true true ex_own_hier)) = [s2p "a"] /\
+  arg_names (stub_from_trusted_data true true ex_own_hier) = [s2p "cls"; s2p "source_object"; s2p "ignore_props"; s2p "a"].
+Proof. vm_compute. repeat split; reflexivity. Qed.
 
 (* ======================================================================================================
    the tie to the source of the stub renderers (generated layer), appended from the contributor's file *)
@@ -193,7 +220,8 @@ Section C16_src.
   Proof. exact (get_init_src_eq apd_run h0 fobj cobj). Qed.
 
   (* get_additional_structure_methods on any dict of texts (distinct keys): the three defs, every keyword
-     completed with " = None" *)
+     completed with " = None"; the two classmethods without the keywords named like their own parameters
+     ([methods_text] renders them from [classmethod_text]) *)
   Theorem C16_src_additional_methods : forall (C : hier) (l : list (pystr * pystr)) (apd_stub : bool),
       nodup_names (map fst l) = true ->
       get_additional_structure_methods (hp C) (ref o_cls) (sdict l) (PBool apd_stub)
@@ -201,6 +229,8 @@ Section C16_src.
   Proof. exact (get_additional_structure_methods_src_eq apd_run h0 fobj cobj). Qed.
   Theorem C16_src_with_none_abs : forall l, map abs_entry (none_text l) = with_none (map abs_entry l).
   Proof. exact none_text_abs. Qed.
+  Theorem C16_src_classmethod_abs : forall l, map abs_entry (classmethod_text l) = classmethod_kws (map abs_entry l).
+  Proof. exact classmethod_text_abs. Qed.
 
   (* the chain get_stubs_of_structures runs for __init__: the text is the rendering of a def whose reading is
      the model's stub_init (fixed parameters, keywords with their has-a-default, ** parameter) *)
@@ -222,11 +252,11 @@ Section C16_src.
        oa <- get_ordered_args (hp C) ti ;;
        get_additional_structure_methods (hp C) (ref o_cls) oa (PBool apd_stub))
       = Ok (PStr (join_strs nl [def_render clone_head self_fixed kws kw;
-                                def_render other_head other_fixed kws kw;
-                                def_render trusted_head trusted_fixed kws kw]))
+                                def_render other_head other_fixed (classmethod_text kws) kw;
+                                def_render trusted_head trusted_fixed (classmethod_text kws) kw]))
       /\ abs_def self_fixed kws kw = stub_shallow_clone apd_run apd_stub C
-      /\ abs_def other_fixed kws kw = stub_from_other_class apd_run apd_stub C
-      /\ abs_def trusted_fixed kws kw = stub_from_trusted_data apd_run apd_stub C.
+      /\ abs_def other_fixed (classmethod_text kws) kw = stub_from_other_class apd_run apd_stub C
+      /\ abs_def trusted_fixed (classmethod_text kws) kw = stub_from_trusted_data apd_run apd_stub C.
   Proof. exact (stub_methods_src_eq apd_run h0 fobj cobj ext la ac). Qed.
 
   (* consequences for the texts the source renders, through the model's theorems: the keyword names of the
@@ -264,6 +294,7 @@ Print Assumptions C16_src_ordered_args_abs.
 Print Assumptions C16_src_get_init.
 Print Assumptions C16_src_additional_methods.
 Print Assumptions C16_src_with_none_abs.
+Print Assumptions C16_src_classmethod_abs.
 Print Assumptions C16_src_stub_init.
 Print Assumptions C16_src_stub_methods.
 Print Assumptions C16_src_init_keywords.
